@@ -321,8 +321,10 @@ func (gb *gcpBalancer) UpdateClientConnState(ccs balancer.ClientConnState) error
 	}
 
 	if len(gb.scRefs) == 0 {
+		// (Re-)create the pool up to its minimum size. This also covers a first update
+		// that had no addresses to connect to: it fixed the config but created nothing.
 		// gb.mu is already held: newSubConn() would lock it again.
-		gb.addSubConn()
+		gb.enforceMinSize()
 		return nil
 	}
 
